@@ -229,3 +229,17 @@ Theorem C20_cycle_refuted : forall cwd fuel,
   ra_error (read_all 128 cy_fs cwd "/p/top.i" fuel) = Some E_OutOfFuel.
 Proof. exact cycle_example. Qed.
 Print Assumptions C20_cycle_refuted.
+
+(* 10. PROPOSED REPAIR C20-1 (proposed_fixes/C20-1.diff): the drain loop keeps, for every file read, the files that led
+   to it and refuses a read card whose target is one of them.  Unless it reports a cycle the guarded reader is the
+   reader of 1-9, so every statement above carries over; and on cy2.i it reports the cycle after one reading. *)
+Theorem C20_guard_transparent : forall w fs cwd top fuel,
+  ra_error (read_all_g w fs cwd top fuel) <> Some E_Cycle ->
+  read_all_g w fs cwd top fuel = read_all w fs cwd top fuel.
+Proof. exact read_all_g_transparent. Qed.
+Print Assumptions C20_guard_transparent.
+
+Example C20_guard_reports_cycle :
+  ra_error (read_all_g 128 cy_fs "/" "/p/top.i" 3) = Some E_Cycle /\
+  ycards (ra_yields (read_all_g 128 cy_fs "/" "/p/top.i" 3)) = [(0, ["1 0 -1"]); (1, ["1 so 5"]); (2, ["nps 10"])].
+Proof. exact cycle_guarded_example. Qed.
